@@ -5,6 +5,7 @@ From Coq Require Import List NArith Bool Arith Sorted.
 From Coq Require Import Strings.Byte.
 Require Import BS.Bytes BS.Common BS.Api BS.Layout BS.Format BS.FormatFacts BS.Spec BS.SpecStep.
 Require Import BS.FS BS.FSFacts BS.Meta BS.MetaFacts BS.Header BS.Reader BS.ReaderFacts BS.Index BS.Data BS.DataFacts BS.Seek BS.Series BS.SeriesFacts BS.TotalFacts BS.OpenFacts BS.HistoryFacts.
+Require Import BS.World BS.Judge BS.JudgeFacts.
 Import ListNotations.
 
 (* (I) under the representation invariant the accessors report the contents *)
@@ -41,3 +42,16 @@ Theorem C12_every_history : forall p name uhdr,
        /\ series_last_line (snd st') (fst st') = (fst st', match last_opt l with Some x => Ok x | None => Err ENoData end).
 Proof. exact history_accessors. Qed.
 Print Assumptions C12_every_history.
+
+(* (I refines S, at the level of the public API) every session - create a series in an empty directory, then ANY sequence of
+   appends (accepted or refused), full and bounded reads, first-n reads, line counts and accessor calls, with any arguments
+   the types admit - run on the model of the library is ACCEPTED BY THE JUDGE, the extracted specification that decides
+   whether an observed behaviour satisfies the properties: every answer of the model is in the set the judge allows, after
+   every step the files of the model are byte for byte the files the judge expects, and the judge stays determined. On this
+   fragment a judge failure on the implementation is therefore a deviation of the code from its model. *)
+Theorem C12_session_accepted_by_judge : forall (name:list byte) (p:nat) (hdr:list byte),
+  (len (params_to_text BSgen.Consts.version (N.of_nat p) ++ hdr) <= 65535)%N ->
+  forall cb ops, Forall sess_op ops ->
+  accepted World.init_world judge_init (ONew name (N.of_nat p) hdr [] cb :: ops).
+Proof. exact session_accepted. Qed.
+Print Assumptions C12_session_accepted_by_judge.
